@@ -169,7 +169,11 @@ def grow_all(crop_factory, B, order, via):
         h = len(ids) // 2
         if ids[:h]:
             crop_factory().grow(ids[:h], verbosity=0)
-        crop_factory().grow(ids[h:], verbosity=0)
+        # (the rest as a tuple, a one-shot iterator or a reversed view,
+        # depending on the crop's size)
+        rest = ids[h:]
+        rest = [tuple(rest), iter(rest), reversed(rest[::-1])][B % 3]
+        crop_factory().grow(rest, verbosity=0)
     elif via == "missing":
         grow(ids[0], crop=crop_factory(), verbosity=0)
         crop_factory().grow_missing(verbosity=0)
@@ -203,6 +207,14 @@ def make_crop_and_sow(f, d, case, combos, fn_args, cs, constants):
         import copy
 
         pc = {"k": 9} if constants else None
+        oldfn = core.pick([case, "oldfn"], 2) == 1
+        if oldfn:
+            # ... by another session, with an earlier version of the function
+            # (the function is then corrected and the crop sown afresh)
+            fx = f._xv
+            crop = xyz.Crop(fn=xfn.make_fn(
+                list(fx["args"]), kind=fx["kind"], name=fx["name"],
+                version=1), name=NAME, parent_dir=d, **kws)
         crop.sow_combos(
             copy.deepcopy(dcombos), constants=pc, verbosity=0, shuffle=13,
             cases=[dict(zip(fn_args, c)) for c in cs] if kind == "mix"
@@ -210,6 +222,8 @@ def make_crop_and_sow(f, d, case, combos, fn_args, cs, constants):
         crop.missing_results(), crop.num_sown_batches, str(crop)
         xyz.Crop(name=NAME, parent_dir=d).grow_missing(verbosity=0)
         crop.is_ready_to_reap()
+        if oldfn:
+            crop = xyz.Crop(fn=f, name=NAME, parent_dir=d, **kws)
     if kind == "grid":
         crop.sow_combos(dcombos, constants=constants, verbosity=0, **skw)
     elif kind == "mix":
